@@ -149,6 +149,9 @@ FIXED_SPECS = [
     dict(kind="tri", rate=16000, low_hz=20.0, high_hz=None, num_filts=40, scale=dict(name="mel"), analytic=False),
     dict(kind="fbank", rate=16000, low_hz=20.0, high_hz=None, num_filts=40, analytic=False),
     dict(kind="fbank", rate=8000, low_hz=0.0, high_hz=4000.0, num_filts=1, analytic=True),
+    # low_hz above the (default) top edge: the documented ValueError (finding F-C06: Fbank used to accept it)
+    dict(kind="fbank", rate=500, low_hz=300.0, high_hz=None, num_filts=3, analytic=False),
+    dict(kind="fbank", rate=500, low_hz=300.0, high_hz=None, num_filts=10, analytic=True),
     dict(kind="gabor", rate=16000, low_hz=20.0, high_hz=None, num_filts=40, scale=dict(name="mel"), l2=False, erb=False),
     dict(kind="gabor", rate=8000, low_hz=0.0, high_hz=None, num_filts=1, scale=dict(name="bark"), l2=True, erb=False),
     dict(kind="gabor", rate=8000, low_hz=0.0, high_hz=None, num_filts=2, scale=dict(name="linear", low_hz=0.0, slope_hz=1.0), l2=False, erb=True),
@@ -255,6 +258,9 @@ def oracle_case(ctx, bank, spec, i, W, eps):
     compact = kind in ("tri", "fbank")
     case = dict(bank=spec, filt=i, width=W)
     tags = dict(bank=kind)
+    top = spec["high_hz"] if spec["high_hz"] is not None else (spec["rate"] / 2 if kind == "tri" else spec["rate"] // 2)
+    if not spec["low_hz"] < top:
+        tags["range"] = "inverted"  # low_hz >= high_hz: the constructor is documented to raise ValueError
 
     def viol(expected, got, text, clause):
         ctx.violation(case, expected, got, text, tags=dict(tags, clause=clause))
